@@ -1458,6 +1458,10 @@ func (r *Runtime) RunProgram(p *Program) (result Value, err error) {
 			}
 		} else {
 			vm.callStack = vm.callStack[:len(vm.callStack)-1]
+			// also when the program was aborted by an interrupt or a stack overflow: the aborted program must not
+			// show up as a frame in the stack traces of later calls
+			vm.prg = nil
+			vm.sb = -1
 		}
 		if x := recover(); x != nil {
 			if ex := asUncatchableException(x); ex != nil {
